@@ -126,6 +126,9 @@ def run(chk):
             sc = recs[k % len(recs)]
             glyphs = CC.concretise(sc, r)
             tol = 0.1 if sc["reuse"] else -1.0
+        elif k % 3 == 0:
+            glyphs = S.lattice_scenario(r)      # axis-aligned copies incl. mirrors and half turns
+            tol = 0.1
         else:
             glyphs = S.random_scenario(r, reuse_bias=0.7)
             # push some content outside the viewBox
@@ -134,6 +137,8 @@ def run(chk):
                 L = specs[0]
                 L.place = (L.place[0], L.place[1], L.place[2], L.place[3], vb[0] - 0.1 * vb[2], vb[1] + 1.05 * vb[3])
             tol = r.choice([0.1, 0.1, 0.5, -1.0])
+        if k >= n_model and k % 3 == 0:
+            tol = 0.1
         variant = dict(CC.VARIANTS[k % len(CC.VARIANTS)])
         variant.pop("clipbox_quantization", None)
         qsel = qs[k % 4]
